@@ -228,10 +228,10 @@ def run(ctx):
     # directed: the commit edges on which the recursive save meets an object already being saved
     start("loop", lambda: edges(ctx, "Realm_loop.cfg"))
     re_, rx, rs = par([lambda: edges(ctx, "Realm_qe.cfg"), lambda: edges(ctx, "Realm_xq.cfg"),
-                       lambda: simulate(ctx, 40 if quick else 350)])
+                       lambda: simulate(ctx, 20 if quick else 350)])
     ctx.cov["edges_emitted"] = len(re_.traces) + len(rx.traces)
     behs = []
-    for r, nq, nt in ((re_, 80, 1500), (rx, 40, 700)):
+    for r, nq, nt in ((re_, 40, 1500), (rx, 20, 700)):
         eb = vlib.dedup_prefix(r.traces)
         eb.sort(key=lambda b: json.dumps(b, sort_keys=True))
         n = nq if quick else nt
